@@ -50,7 +50,7 @@ func checkAccumulator(p *core.Program, r *core.Report, rule string, fd *core.Fun
 		if !ok {
 			return true
 		}
-		if fn := core.Callee(info, c); fn != nil && fn.Name() == "MakeConnectionSet" && len(c.Args) == 1 {
+		if fn := core.Callee(info, c); fn != nil && core.RefName(fn) == "MakeConnectionSet" && len(c.Args) == 1 {
 			if v, ok := core.ConstString(info, c.Args[0]); ok && v == "false" {
 				if id, ok := as.Lhs[0].(*ast.Ident); ok && acc == nil {
 					cand := info.ObjectOf(id)
@@ -137,10 +137,10 @@ func accumulatorUse(p *core.Program, fd *core.FuncDecl, acc types.Object, accDef
 			if se, ok := ast.Unparen(x.Fun).(*ast.SelectorExpr); ok {
 				if id, ok := ast.Unparen(se.X).(*ast.Ident); ok && info.ObjectOf(id) == acc {
 					sig := fn.Type().(*types.Signature)
-					if fn.Name() == "Union" {
+					if core.RefName(fn) == "Union" {
 						unions = true
 					} else if sig.Results().Len() == 0 && bad == "" {
-						bad = "the accumulator is modified by " + fn.Name() + " at " + p.Pos(x.Pos())
+						bad = "the accumulator is modified by " + core.RefName(fn) + " at " + p.Pos(x.Pos())
 					}
 					return true
 				}
@@ -281,7 +281,7 @@ func unionInLoop(p *core.Program, fd *core.FuncDecl, acc types.Object) bool {
 				if fn == nil {
 					return true
 				}
-				if se, ok := ast.Unparen(x.Fun).(*ast.SelectorExpr); ok && fn.Name() == "Union" {
+				if se, ok := ast.Unparen(x.Fun).(*ast.SelectorExpr); ok && core.RefName(fn) == "Union" {
 					if id, ok := ast.Unparen(se.X).(*ast.Ident); ok && info.ObjectOf(id) == acc {
 						found = true
 					}
@@ -321,14 +321,14 @@ func DefaultIsTop(p *core.Program, r *core.Report, rule string) {
 		if !ok || len(as.Lhs) != 1 || len(as.Rhs) != 1 {
 			return true
 		}
-		if f := core.FieldOf(info, as.Lhs[0]); f == nil || f.Name() != "AllowedConns" {
+		if f := core.FieldOf(info, as.Lhs[0]); f == nil || core.RefName(f) != "AllowedConns" {
 			return true
 		}
 		c, ok := ast.Unparen(as.Rhs[0]).(*ast.CallExpr)
 		if !ok {
 			return true
 		}
-		if fn := core.Callee(info, c); fn != nil && fn.Name() == "MakeConnectionSet" && len(c.Args) == 1 {
+		if fn := core.Callee(info, c); fn != nil && core.RefName(fn) == "MakeConnectionSet" && len(c.Args) == 1 {
 			v, _ := core.ConstString(info, c.Args[0])
 			fm, w, found := FactsAt(fd, as, nil)
 			_ = w
@@ -382,7 +382,7 @@ func PolicyLocality(p *core.Program, r *core.Report, rule string) {
 		if !mention.IsValid() {
 			continue
 		}
-		why, ok := allowed[fd.Obj.Name()]
+		why, ok := allowed[core.RefName(fd.Obj)]
 		r.Check(ok, rule, fd.Key()+": touches the NetworkPolicy store", p.Pos(mention), why,
 			"the NetworkPolicy store is read outside the selection function and the IP partition: policies that do not select a pod could influence its connections (locality)")
 	}
@@ -400,7 +400,7 @@ func PolicyLocality(p *core.Program, r *core.Report, rule string) {
 	ast.Inspect(sel.Decl.Body, func(n ast.Node) bool {
 		if as, ok := n.(*ast.AssignStmt); ok && len(as.Rhs) == 1 {
 			if c, ok := ast.Unparen(as.Rhs[0]).(*ast.CallExpr); ok {
-				if fn := core.Callee(info, c); fn != nil && fn.Name() == "Selects" {
+				if fn := core.Callee(info, c); fn != nil && core.RefName(fn) == "Selects" {
 					if id, ok := as.Lhs[0].(*ast.Ident); ok {
 						selectsVar, _ = info.ObjectOf(id).(*types.Var)
 						selectsCall = c
@@ -464,7 +464,7 @@ func PolicyLocality(p *core.Program, r *core.Report, rule string) {
 					hasNs = true
 				}
 			case *ast.CallExpr:
-				if fn := core.Callee(finfo, x); fn != nil && fn.Name() == "policyAffectsDirection" {
+				if fn := core.Callee(finfo, x); fn != nil && core.RefName(fn) == "policyAffectsDirection" {
 					hasDir = true
 				}
 			}
